@@ -99,9 +99,9 @@ def measure(img: torch.Tensor, scene: Scene, scale: float, max_hw):
     scored = sorted((abs(fr.H * a - rows) + abs(fr.W * a - cols), a) for a in cands)
     # content may be clipped by the tensor (never happens for bottom/right padding pipelines)
     err, a = scored[0]
-    if err > 4.0:
+    if err > 6.0:
         raise StubError(f"content extent {rows}x{cols} of frame {fr.H}x{fr.W} matches no candidate scale {cands}")
-    if len(scored) > 1 and scored[1][0] - err < 1.0:
+    if len(scored) > 1 and scored[1][0] - err < 2.0:
         raise StubAmbiguous(f"content extent {rows}x{cols}: candidates {scored[:2]}")
     return fr, a, eff
 
@@ -238,23 +238,26 @@ def make_video(frames: list, name="mem.mp4"):
     return _mem_video_cls()(filename=name, backend=be, open_backend=False)
 
 
-def make_labels(videos: list, node_names=None):
+def make_labels(videos: list, node_names=None, order=None):
     """`sio.Labels` with one LabeledFrame per FrameSpec; `videos` = list of lists of FrameSpec
-    (frame k of video v is `videos[v][k]`).  Returns (labels, [sio.Video…])."""
+    (frame k of video v is `videos[v][k]`).  `order` = optional list of (video, frame) pairs: which
+    labeled frames exist and in which order the reader will meet them (default: all, video-major).
+    Returns (labels, [sio.Video…])."""
     import sleap_io as sio
     n_nodes = max([len(a.pts) for v in videos for f in v for a in f.animals] + [len(node_names or [])] + [1])
     node_names = node_names or [f"n{i}" for i in range(n_nodes)]
     skel = sio.Skeleton(nodes=[sio.Node(n) for n in node_names])
-    vids, lfs = [], []
-    for vi, frs in enumerate(videos):
-        v = make_video(frs, name=f"mem{vi}.mp4")
-        vids.append(v)
-        for k, f in enumerate(frs):
-            insts = []
-            for a in f.animals:
-                arr = np.array([[np.nan, np.nan] if p is None else [p[0], p[1]] for p in a.pts], dtype=float)
-                insts.append(sio.Instance.from_numpy(arr, skeleton=skel))
-            lfs.append(sio.LabeledFrame(video=v, frame_idx=k, instances=insts))
+    vids = [make_video(frs, name=f"mem{vi}.mp4") for vi, frs in enumerate(videos)]
+    if order is None:
+        order = [(vi, k) for vi, frs in enumerate(videos) for k in range(len(frs))]
+    lfs = []
+    for vi, k in order:
+        f = videos[vi][k]
+        insts = []
+        for a in f.animals:
+            arr = np.array([[np.nan, np.nan] if p is None else [p[0], p[1]] for p in a.pts], dtype=float)
+            insts.append(sio.Instance.from_numpy(arr, skeleton=skel))
+        lfs.append(sio.LabeledFrame(video=vids[vi], frame_idx=k, instances=insts))
     return sio.Labels(labeled_frames=lfs, videos=vids, skeletons=[skel]), vids
 
 
